@@ -448,6 +448,31 @@ where
         "from_inner_F" => D::from_inner(<<D as DualNum<F>>::Inner as From<F>>::from(fa(0))).wr(o),
         "sum" => a.iter().cloned().sum::<D>().wr(o),
         "product" => a.iter().cloned().product::<D>().wr(o),
+        "from_prim" => {
+            // every integer conversion of FromPrimitive: aux = [kind, decimal value]
+            let v = aux[1];
+            let r: Option<D> = match aux[0] {
+                "i8" => D::from_i8(v.parse().unwrap()),
+                "i16" => D::from_i16(v.parse().unwrap()),
+                "i64" => D::from_i64(v.parse().unwrap()),
+                "i128" => D::from_i128(v.parse().unwrap()),
+                "isize" => D::from_isize(v.parse().unwrap()),
+                "u8" => D::from_u8(v.parse().unwrap()),
+                "u16" => D::from_u16(v.parse().unwrap()),
+                "u32" => D::from_u32(v.parse().unwrap()),
+                "u64" => D::from_u64(v.parse().unwrap()),
+                "u128" => D::from_u128(v.parse().unwrap()),
+                "usize" => D::from_usize(v.parse().unwrap()),
+                k => panic!("from_prim: unknown kind {k}"),
+            };
+            match r {
+                Some(v) => {
+                    o.push("some".into());
+                    v.wr(o)
+                }
+                None => o.push("none".into()),
+            }
+        }
         "from_i32" => match D::from_i32(ia(0)) {
             Some(v) => {
                 o.push("some".into());
